@@ -21,7 +21,7 @@ for d in sorted(glob.glob(os.path.join(ROOT, "seeded", "*", ""))):
 n = len(rows)
 det = sum(1 for v in reg.values() if v.startswith("DETECTED"))
 conc = sum(1 for v in reg.values() if "concrete" in v)
-head = ("%d confirmed changes (3 are the reverses of the fix: commits, %d come from independent sub-agents in six batches; the "
+head = ("%d confirmed changes (3 are the reverses of the fix: commits, %d come from independent sub-agents in seven batches; the "
         "third and later batches were asked for changes that are hard to notice and told which earlier ideas were already known).  Each "
         "compiles and leaves the unedited suite at 101 passed (gen/confirm_mut.sh in a scratch worktree: patch only / patch+demo "
         "/ demo only).  Last full regression (gen/seeded_regress.sh, quick tier, default seed): %d of %d detected by the check of "
@@ -33,9 +33,9 @@ head = ("%d confirmed changes (3 are the reverses of the fix: commits, %d come f
         "hop-by-hop composition); C05-agent3 (no generator listed one pair asset twice -> provision listing matrix); C14-agent4 (UpdateConfig was only ever sent with the owner field alone -> the "
         "driver sends the message's other shapes too, the caller-role matrix has a second hand-over); C02-agent4 (no bank denom "
         "was ever spelled like a cw20 address -> look-alike denom in the swap matrix); C08-agent4 was caught only by some seeds in "
-        "the quick tier (limb-pattern operands were sampled) -> those operand pairs are now permanent; the fifth and sixth batches (7 and 5 of 10 missed at first) exposed what the driver could not yet SAY rather than what it "
+        "the quick tier (limb-pattern operands were sampled) -> those operand pairs are now permanent; the fifth, sixth and seventh batches (7, 5 and 5 of 10 missed at first, several more reported without a concrete input) exposed what the driver could not yet SAY rather than what it "
         "did not try: look-alike strings across asset kinds, first provisions on behalf of others, route participants as recipients, non-normalised address spellings, the query entry "
-        "point above read_pairs, native decimals beyond 18, code ids and migration, unprovisioned funded pairs, hooks relayed by the wrong token, signs inside numerals (see each row); "
+        "point above read_pairs, native decimals beyond 18, code ids and migration, unprovisioned funded pairs, hooks relayed by the wrong token, signs inside numerals, pools emptied to the locked unit and re-seeded, LP handed over between users, cw20s that are not laid out like cw20-base, cursors handed back in the other asset order (see each row); "
         "C09-agent3 and "
         "C16-agent3 were anticipated from their descriptions before they could be run (no case-variant denoms anywhere; the "
         "factory lookup was only observed in the pair's own asset order) and the checks were extended first (function-level family "
